@@ -27,7 +27,7 @@ type fp struct {
 	giaddr  uint32
 	magic   uint32
 	opts    []byte
-	bootpTo int // pad the BOOTP message (incl. options) with zeros up to this size
+	bootpTo int  // pad the BOOTP message (incl. options) with zeros up to this size
 	sname   byte // fill byte of sname/file (shows whether the reply clears them)
 }
 
@@ -437,5 +437,6 @@ func (comp) Gen(r *rand.Rand, tier string, emit func([]string)) {
 	genTruncation(r, tier, emit)
 	genMutation(r, tier, emit)
 	genRandom(r, tier, emit)
+	genExhaustive(r, tier, emit)
 	genServer(r, tier, emit)
 }
